@@ -200,3 +200,20 @@ def run(ctx):
             case["rates"] = rates.tolist()
         for test in TESTS:
             ex_case(ctx, case, test, num_sim=2, seed=j)
+    # a whole cell (or a whole magnitude bin) at 1e-12 per bin holding one of very few events, under a forecast total of ~1e4..1e5: the S- / M-test
+    # marginal normalised by N_obs / N_fore falls to ~1e-17 - a positive rate all the same (the statistic is finite: no event lies in a zero-rate bin)
+    for j in range((20000 if thorough else 120) // ctx.nshards):
+        r = ctx.rng("c05range", j)
+        case = gridcases.gen_case(r, max_cells=40, max_mag=8, max_events=2, zero_frac=0.0, events_in_zero=False)
+        rates = numpy.array(case["rates"])
+        if not len(case["ev_cell"]) or rates.shape[0] < 2 or rates.shape[1] < 2:
+            continue
+        rates = r.uniform(300.0, 1000.0, rates.shape)          # every other bin near the top of the stated rate range
+        if j % 2:
+            rates[case["ev_cell"][0], :] = 1e-12
+        else:
+            rates[:, case["ev_mag"][0]] = 1e-12
+        case["rates"] = rates.tolist()
+        ctx.mon("workload:tiny-normalised-marginal", 1)
+        for test in TESTS:
+            ex_case(ctx, case, test, num_sim=2, seed=j, inject=bool(j % 4 < 2))
